@@ -65,6 +65,7 @@ def _run_shard(args):
         t = ln.split("\t")
         if t[0] == "Z":
             rec["zones"].append(t[1])
+            rec.setdefault("zone_lines", []).append(t)
             dinput.append(" ".join(t))
         elif t[0] == "C" and len(t) >= 10:
             c = {"id": t[1], "zone": t[2], "prev": int(t[3]), "go": t[4], "fields": t[5], "expr": t[6].replace("\\t", "\t"), "loc": t[7],
@@ -250,3 +251,72 @@ def directed_from_calendar(hbin, dbin, auxbad, is_failure, limit=3):
                         if len(found) >= limit:
                             return found
     return found
+
+
+def coq_fields(tokens):
+    t = tokens.split(" ")
+
+    def lst(x):
+        return "[]" if x == "-" else "[" + "; ".join("(%s)" % v for v in x.split(",")) + "]"
+    return ("{| fl_sec := %s; fl_min := %s; fl_hour := %s; fl_dom := %s; fl_dom_n := (%s); fl_mon := %s; "
+            "fl_dow := %s; fl_dow_n := (%s); fl_year := %s |}") % (lst(t[0]), lst(t[1]), lst(t[2]), lst(t[3]), t[4], lst(t[5]), lst(t[6]), t[7], lst(t[8]))
+
+
+def coq_sample(recs, nmax=300):
+    """Thorough tier: re-evaluate a sample of the cases INSIDE Coq (vm_compute) and compare with the
+    implementation's result -- takes OCaml extraction and the driver out of the trusted base for the sample."""
+    zones = {}
+    for r in recs:
+        for t in r.get("zone_lines", []):
+            zones[t[1]] = t
+    cases = [c for r in recs for c in r["cases"]]
+    step = max(1, len(cases) // nmax)
+    sample = cases[::step][:nmax]
+    used = sorted({c["zone"] for c in sample})
+    zdefs = []
+    zname = {}
+    for i, zid in enumerate(used):
+        t = zones.get(zid)
+        if t is None:
+            continue
+        zname[zid] = "zone_%d" % i
+        tr = t[3:]
+        pairs = "; ".join("((%s), (%s))" % (tr[j], tr[j + 1]) for j in range(0, len(tr) - 1, 2))
+        zdefs.append("Definition zone_%d : zone := {| z_off0 := (%s); z_trans := [%s] |}." % (i, t[2], pairs))
+    items = []
+    kept = []
+    for c in sample:
+        if c["zone"] not in zname or c["go"][0] not in "FE":
+            continue
+        exp = "Expired" if c["go"] == "E" else "Fire (%s)" % c["go"][1:]
+        items.append("(%d%%nat, (%s, %s, (%d), %s))" % (len(kept), coq_fields(c["fields"]), zname[c["zone"]], c["prev"], exp))
+        kept.append(c)
+    v = """From Coq Require Import ZArith List Bool.
+Require Import QzBase.Calendar QzBase.Fields.
+Require Import QzCron.CsmModel QzCron.NextFire.
+Import ListNotations.
+Open Scope Z_scope.
+%s
+Definition res_eqb (a b : res) : bool :=
+  match a, b with Fire x, Fire y => x =? y | Expired, Expired => true | ModelError, ModelError => true | _, _ => false end.
+Definition cases : list (nat * (fields * zone * Z * res)) := [%s].
+Definition MISMATCH := Eval vm_compute in
+  map fst (filter (fun c => let '(_, (f, z, prev, want)) := c in negb (res_eqb (next_fire_time_zone f z prev) want)) cases).
+Print MISMATCH.
+""" % ("\n".join(zdefs), ";\n ".join(items))
+    rc, out = vlib.coq_eval(PROJ, "cron_sample", v, timeout=1500)
+    m = re.search(r"MISMATCH\s*=\s*(\[[^\]]*\])", out.replace("\n", " "))
+    if rc != 0 or not m:
+        return {"evaluated": 0, "error": out[-800:]}, []
+    body = m.group(1).strip("[]").strip()
+    idx = [int(x.replace("%nat", "").strip()) for x in body.split(";") if x.strip()] if body else []
+    return {"evaluated": len(kept), "mismatches": len(idx)}, [case_view(kept[i]) for i in idx]
+
+
+def coqchk_axioms(proj, libs, timeout=3000):
+    """Independent re-check of compiled libraries with coqchk -o; returns (ok, axiom summary text)."""
+    d = vlib.coq_dir(proj)
+    args = ["coqchk", "-silent", "-o"] + vlib.coq_args(proj) + libs
+    rc, out = vlib.run(args, cwd=d, timeout=timeout)
+    tail = out[out.find("CONTEXT SUMMARY"):] if "CONTEXT SUMMARY" in out else out[-1500:]
+    return rc == 0, tail[:3000]
